@@ -17,6 +17,7 @@ EXPLANATION = (
     "Also decided (round 9): A batch member's result is collected exactly as the method returned it. "
     'Also decided (round 11): The exact-read obligations of receive_data are shared (C17 via C06): the serializer is handed exactly the payload bytes that were sent. '
     "Also decided (round 10): The marshal pre-conversion's cycle record is a parameter passed down by every recursive call (not state on the serializer); the oneway thread hands user keyword arguments over so that none can collide with a parameter of the thread's own function; no encoder is called with an option that drops or rewrites what the format cannot express (skipkeys, use_bin_type=False, unicode_errors). "
+    "Also decided (round 12): The proxy's state carries its serializer choice into copies (shared from C19). "
     "Not decided: that serpent/json/marshal/msgpack/zlib return what was put in over the unbounded value domain, the "
 )
 
@@ -567,6 +568,17 @@ def run(ctx, R, tier):
     except AnalysisError as _shared_x:
         # the other property's own anchors are gone on this tree: its check reports that; what it produced before is still shared
         R.note("obligations shared from C06 are incomplete on this tree: %s" % _shared_x)
+    # the serializer a proxy was told to use is part of its state: a copy (another thread's proxy, a proxy that travelled) keeps it - otherwise the copy silently
+    # talks serpent and the same call maps its values differently (shared with C19-R1: state element i is restored into the attribute it was taken from)
+    from . import c19 as _c19
+    R19_ = Rules("C19")
+    try:
+        _run_shared(ctx, _c19, R19_, tier)
+    except AnalysisError as _shared_x:
+        R.note("obligations shared from C19 are incomplete on this tree: %s" % _shared_x)
+    for o in R19_.obs:
+        if o.key == "C19-R1|Proxy|getstate-setstate-index":
+            R.add("C01-R6", "Proxy|state-carries-the-serializer-choice", o.desc + " (among them _pyroSerializer)", o.ok, o.loc, o.detail)
     for o in R6.obs:
         if o.rule == "C06-R7":
             R.add("C01-R3", o.key.split("|", 1)[1], o.desc, o.ok, o.loc, o.detail)
